@@ -16,11 +16,18 @@ warm, float or complex data), the second executions of a block of keys happening
 executions of all the other keys of the block, so a plan cached under a wrong key would be used on
 other data.
 
+Operand identity and memory layout (witness field ``operands``, honoured by replay): besides
+independent C-contiguous operands, every two-operand key with equal operand shapes is executed with
+the SAME array object as both operands (monitor aliased_operands), and a seeded fraction of all keys
+with operands that are strided views / views of each other (monitor view_operands).  The oracle is
+unchanged: shape and value of numpy / E1 on the very same operand objects.
+
 Spaces (equations are enumerated over the literal alphabet, no quotient by relabelling)
     S2   alphabet 'ab',  operand rank 0..3 : enumerated completely in both tiers
     S3   alphabet 'abc', operand rank 0..3 : seeded ~10 % sample in quick, complete in thorough
     TD   tensordot, operand rank 0..3      : enumerated completely in both tiers
     RND  4-5 symbols, operand rank up to 4 : seeded random cases in both tiers
+    RNDSQ  two operands of equal shape, rank 1..4 (einsum and tensordot) : seeded random cases
 
 Found on the snapshot (both repaired in /repo, so classify() knows no finding):
     * einsum('a,aca->c', x, y): transpose-only shortcut of _parse_eq_to_batch_matmul taken for a term with
@@ -50,9 +57,15 @@ RULE = (
     "pair of shapes from {1,2,3}^r, r=0..3, x every int axes n (python int and numpy int) whose last-n / "
     "first-n sizes match x every pair of equally long tuples of distinct axes with matching sizes, "
     "enumerated completely. RND: seeded random one-/two-operand equations over 4-5 symbols with rank up "
-    "to 4, and random tensordot calls of rank up to 4. One label never has two sizes. Each key is run "
+    "to 4, and random tensordot calls of rank up to 4; RNDSQ: seeded random two-operand einsum / tensordot "
+    "calls with EQUAL operand shapes of rank 1..4. One label never has two sizes. Each key is run "
     "twice (integer data / planner cold, then float or complex data / planner warm, other keys in "
-    "between). distinct = distinct (executor family, equation or axes, shapes); non-trivial = has a "
+    "between). Every two-operand key (of every space) whose operand shapes are equal is ALSO run, with "
+    "integer and with float / complex data, passing one and the same array object as both operands "
+    "(witness field operands=same_object; the reference is evaluated on the same aliased call); a seeded "
+    "12 % of all keys get one more execution whose operands are non-contiguous views (transposed / "
+    "permuted base, step-2 slice, negative stride, Fortran order) or views of each other (b = a[::1], "
+    "b = a.T). distinct = distinct (executor family, equation or axes, shapes); non-trivial = has a "
     "repeated index within an operand, a batch index (both operands and output), a dimension of size 1, "
     "or no contracted index"
 )
@@ -74,9 +87,12 @@ REQUIRED_MONITORS = [
     "ref_vs_numpy",
     "planner_cold",
     "planner_warm",
+    "aliased_operands",
+    "view_operands",
 ]
 SHARD_TIMEOUT = {"quick": 400, "thorough": 3600}
 BLOCK = 6  # keys whose first and second executions are interleaved
+VIEW_FRACTION = 0.12  # keys that get one more execution with strided / mutually-viewing operands
 
 
 
@@ -85,7 +101,8 @@ def EXHAUSTIVE(tier):
         "einsum: all one- and two-operand equations with terms of length 0..3 over the alphabet 'ab', every "
         "output = permutation of a subset of the indices present, every size assignment from {1,2,3}; "
         "tensordot: all pairs of operand shapes from {1,2,3}^r (r = 0..3), every admissible int axes and "
-        "every pair of equally long tuples of distinct non-negative axes with matching sizes"
+        "every pair of equally long tuples of distinct non-negative axes with matching sizes; every "
+        "two-operand key with equal operand shapes additionally with one array object as both operands"
     )
     if tier == "thorough":
         return s2.replace("alphabet 'ab'", "alphabets 'ab' and 'abc'")
@@ -213,21 +230,109 @@ def features_tensordot(axes_form, axes, shapes):
 NONTRIVIAL = {"repeated", "batch", "size1", "nocontract"}
 
 
-def make_arrays(case_seed, shapes, kind):
+# how the operands of one execution are laid out in memory (witness field "operands")
+#   independent   every operand a fresh C-contiguous array (the default; field absent)
+#   same_object   two operands of equal shape: THE SAME array object is passed twice (b is a)
+#   view_slice    two operands of equal shape: b = a[::1], another object on the same memory
+#   view_T        shape_b == reversed(shape_a): b = a.T, a transposed view of a
+#   noncontig     every operand of rank >= 1 is a non-contiguous view of a larger / permuted base
+#                 (transposed base, step-2 slice, negative stride, Fortran order), chosen per
+#                 operand from the case seed
+# The reference (E1 and numpy) is always evaluated on the very same operand objects.
+OPERAND_MODES = ("independent", "same_object", "view_slice", "view_T", "noncontig")
+LAYOUTS = ("T", "perm", "step2", "rev", "F")
+
+
+def _fresh(nprng, shp, kind):
+    shp = tuple(int(d) for d in shp)
+    if kind == "int":
+        # non-zero small integers: exact in float64, and no operand can hide an error by being 0
+        a = nprng.integers(1, 6, size=shp).astype(np.float64)
+        a = a * nprng.choice(np.array([1.0, 1.0, -1.0]), size=shp)
+    elif kind == "complex":
+        a = nprng.normal(size=shp) + 1j * nprng.normal(size=shp)
+    else:
+        a = nprng.normal(size=shp)
+    return np.asarray(a)
+
+
+def _noncontig(nprng, rng, shp, kind):
+    """An array of shape ``shp`` that is a strided view of some base (rank 0: nothing to do)."""
+    shp = tuple(int(d) for d in shp)
+    r = len(shp)
+    if r == 0:
+        return _fresh(nprng, shp, kind), "c"
+    lay = rng.choice(LAYOUTS)
+    if r == 1 and lay in ("T", "perm", "F"):
+        lay = rng.choice(["step2", "rev"])
+    if lay == "T":
+        a = _fresh(nprng, shp[::-1], kind).T
+    elif lay == "perm":
+        perm = list(range(r))
+        rng.shuffle(perm)
+        base = _fresh(nprng, tuple(shp[perm.index(i)] for i in range(r)), kind)
+        a = base.transpose(perm)
+    elif lay == "step2":
+        ax = rng.randrange(r)
+        big = list(shp)
+        big[ax] *= 2
+        a = _fresh(nprng, big, kind)[(slice(None),) * ax + (slice(rng.randrange(2), None, 2),)]
+    elif lay == "rev":
+        ax = rng.randrange(r)
+        a = _fresh(nprng, shp, kind)[(slice(None),) * ax + (slice(None, None, -1),)]
+    else:
+        a = np.asfortranarray(_fresh(nprng, shp, kind))
+    assert a.shape == shp, (lay, a.shape, shp)
+    return a, lay
+
+
+def mode_applicable(mode, shapes):
+    shapes = [tuple(s) for s in shapes]
+    if mode in (None, "independent", "noncontig"):
+        return True
+    if len(shapes) != 2:
+        return False
+    if mode in ("same_object", "view_slice"):
+        return shapes[0] == shapes[1]
+    if mode == "view_T":
+        return shapes[1] == shapes[0][::-1]
+    return False
+
+
+def make_arrays(case_seed, shapes, kind, operands=None):
+    """Deterministic operands from (case_seed, shapes, kind, operands mode)."""
+    mode = operands or "independent"
+    if mode not in OPERAND_MODES or not mode_applicable(mode, shapes):
+        raise ValueError(f"operand mode {mode!r} not applicable to shapes {shapes}")
     nprng = np.random.default_rng(rng_for(case_seed, "arrays", kind).getrandbits(64))
-    out = []
-    for shp in shapes:
-        shp = tuple(shp)
-        if kind == "int":
-            # non-zero small integers: exact in float64, and no operand can hide an error by being 0
-            a = nprng.integers(1, 6, size=shp).astype(np.float64)
-            a = a * nprng.choice(np.array([1.0, 1.0, -1.0]), size=shp)
-        elif kind == "complex":
-            a = nprng.normal(size=shp) + 1j * nprng.normal(size=shp)
-        else:
-            a = nprng.normal(size=shp)
-        out.append(np.asarray(a))
-    return out
+    if mode == "independent":
+        return [_fresh(nprng, shp, kind) for shp in shapes]
+    if mode == "noncontig":
+        rng = rng_for(case_seed, "layout", kind)
+        return [_noncontig(nprng, rng, shp, kind)[0] for shp in shapes]
+    a = _fresh(nprng, shapes[0], kind)
+    if mode == "same_object":
+        b = a
+    elif mode == "view_slice":
+        b = a[::1] if a.ndim else a[...]
+        assert b is not a
+    else:
+        b = a.T
+        if b is a:  # rank < 2: numpy may hand back the same object
+            b = a[...]
+    assert b.shape == tuple(shapes[1]) and np.shares_memory(a, b)
+    return [a, b]
+
+
+def operand_info(arrays):
+    """Diagnostic only (stored in the witness next to the replayable fields)."""
+    info = [
+        {"shape": list(a.shape), "strides": list(a.strides), "c_contiguous": bool(a.flags.c_contiguous)}
+        for a in arrays
+    ]
+    if len(arrays) == 2:
+        info.append({"same_object": arrays[0] is arrays[1], "shares_memory": bool(np.shares_memory(*arrays))})
+    return info
 
 
 def tensordot_equation(axes_form, axes, shapes):
@@ -332,7 +437,10 @@ def execute(rep, case):
     cc = _cc()
     ex = case["ex"]
     shapes = [tuple(int(d) for d in s) for s in case["shapes"]]
-    arrays = make_arrays(case["case_seed"], shapes, case["kind"])
+    mode = case.get("operands") or "independent"
+    arrays = make_arrays(case["case_seed"], shapes, case["kind"], mode)
+    if mode == "same_object":
+        assert arrays[0] is arrays[1]
     r = reference(rep, case, arrays)
     if r is None:
         return None
@@ -358,7 +466,7 @@ def execute(rep, case):
             (f"{f.name}:{f.line}" for f in reversed(tb) if "cotengra" in f.filename),
             "?",
         )
-        return ("raises", f"{type(e).__name__}: {e} [at {where}]", _plan_of(case, shapes))
+        return ("raises", f"{type(e).__name__}: {e} [at {where}]", _diag(case, shapes, arrays))
     finally:
         if before is not None:
             after = planner.cache_info()
@@ -370,22 +478,32 @@ def execute(rep, case):
                 rep.count("planner_warm", ex)
 
     rep.mon(f"{ex}_value")
+    if mode == "same_object":
+        rep.mon("aliased_operands")
+    elif mode != "independent":
+        rep.mon("view_operands")
     got = np.asarray(got)
     if got.shape != want.shape:
-        return ("shape", f"shape {got.shape} != expected {want.shape}", _plan_of(case, shapes))
+        return ("shape", f"shape {got.shape} != expected {want.shape}", _diag(case, shapes, arrays))
     if case["kind"] == "int":
         if not np.array_equal(got, want):
             return (
                 "value",
                 f"exact integer data: got {got.tolist()!r:.200} expected {want.tolist()!r:.200}",
-                _plan_of(case, shapes),
+                _diag(case, shapes, arrays),
             )
         rep.mon("exact_int")
     else:
         msg = ref.compare(got, want, bound, nsum, len(arrays))
         if msg:
-            return ("value", msg, _plan_of(case, shapes))
+            return ("value", msg, _diag(case, shapes, arrays))
     return None
+
+
+def _diag(case, shapes, arrays):
+    """Diagnostic part of a witness (never read by replay): the library's plan for the key and
+    the memory layout / identity of the operands actually passed."""
+    return {"plan": _plan_of(case, shapes), "operand_info": operand_info(arrays)}
 
 
 def _plan_of(case, shapes):
@@ -421,20 +539,25 @@ class Sink:
         self.n = {}
 
     def add(self, case, res):
-        kind, msg, plan = res
+        kind, msg, diag = res
         witness = dict(case)
-        witness["plan"] = plan
+        witness.update(diag)
+        mode = case.get("operands") or "independent"
         v = {"kind": kind, "message": msg, "witness": witness}
         key = diagnose(v)
         skel = re.sub(r"[-+]?\d[\d.e+-]*", "#", msg)[:60] if kind == "raises" else ""
-        sig = (key, case["ex"], kind, skel)
-        self.rep.count("failing_keys_by_symptom", f"{case['ex']}|{kind}|{key or skel}")
+        # the operand mode is part of the signature: a defect that needs aliased / strided
+        # operands is never crowded out by one that fires on every call
+        sig = (key, case["ex"], kind, skel, mode)
+        self.rep.count("failing_keys_by_symptom", f"{case['ex']}|{kind}|{key or skel}|operands={mode}")
         if key:
             msg = f"{msg} [diagnosis: {key}]"
         self.n[sig] = self.n.get(sig, 0) + 1
         if self.n[sig] <= self.PER_SIG:
             label = case.get("eq") or f"axes={case.get('axes')}({case.get('axes_form')})"
-            self.rep.violation(kind, witness, f"{case['ex']} {label} shapes={case['shapes']} {case['kind']}: {msg}")
+            self.rep.violation(
+                kind, witness, f"{case['ex']} {label} shapes={case['shapes']} {case['kind']} operands={mode}: {msg}"
+            )
 
 
 # --------------------------------------------------------------------------- #
@@ -465,6 +588,23 @@ def _key_cases(space, desc, case_seed, second_kind):
         ]
     first = [dict(b, kind="int", case_seed=case_seed) for b in base]
     second = [dict(b, kind=second_kind, case_seed=case_seed) for b in base]
+    rng = rng_for(case_seed, "operand-modes")
+    if len(shapes) == 2 and mode_applicable("same_object", shapes):
+        # equal operand shapes: the same call with ONE array object as both operands, integer and
+        # float / complex data; on half of the keys the aliased call is the one that meets the cold planner
+        al1 = [dict(c, operands="same_object") for c in first]
+        al2 = [dict(c, operands="same_object") for c in second]
+        first = al1 + first if rng.random() < 0.5 else first + al1
+        second = second + al2
+    if rng.random() < VIEW_FRACTION:
+        modes = ["noncontig"] if any(len(s) for s in shapes) else []
+        if len(shapes) == 2:
+            # operands that are views of each other are rarer: prefer them where they exist
+            modes += [m for m in ("view_slice", "view_T") if mode_applicable(m, shapes)] * 2
+        if modes:
+            m = rng.choice(modes)
+            k = rng.choice(["int", second_kind])
+            second = second + [dict(b, kind=k, case_seed=case_seed, operands=m) for b in base]
     return first, second
 
 
@@ -496,9 +636,12 @@ def run_block(rep, sink, block):
     for which in (0, 1):
         for i, p in enumerate(passes):
             for case in p[which]:
-                tag = (i, case["ex"])
+                mode = case.get("operands") or "independent"
+                tag = (i, case["ex"], mode)
                 if tag in failed:
-                    continue  # one witness per key and executor
+                    continue  # one witness per key, executor and operand mode
+                if mode != "independent":
+                    rep.count("operand_modes", f"{case['ex']}|{mode}")
                 res = execute(rep, case)
                 if res:
                     failed.add(tag)
@@ -565,6 +708,7 @@ def run_shard(rep, tier, seed, shard, nshards):
         )
     # -- random larger cases --------------------------------------------------
     run_random(rep, sink, tier, seed, shard)
+    run_random_square(rep, sink, tier, seed, shard)
     if shard == 0:
         probe_negative_axes(rep)
 
@@ -618,6 +762,70 @@ def rand_desc(rng):
     for i, j in zip(axa, axb):
         sb[j] = sa[i]
     return "tensordot", ("tuple", (axa, axb), (tuple(sa), tuple(sb)))
+
+
+def rand_square_desc(rng):
+    """Two operands of EQUAL shape (rank 1..4), so that the aliased / mutually-viewing operand modes
+    apply; half of the einsum cases keep every index (pure multiplication: outer, Hadamard, batch)."""
+    nsym = rng.choice([3, 4, 5])
+    alpha = rng.sample(LETTERS, nsym)
+    few = rng.sample(SIZES, rng.choice([1, 2, 2]))  # few distinct sizes: many labels are interchangeable
+    sd = {ix: rng.choice(few) for ix in alpha}
+    r = rng.choice([1, 2, 2, 3, 3, 4, 4])
+    if rng.random() < 0.65:
+        ta = [rng.choice(alpha) for _ in range(r)]
+        mode = rng.random()
+        if mode < 0.2:
+            tb = list(ta)
+        elif mode < 0.4:
+            tb = list(ta)
+            rng.shuffle(tb)
+            if [sd[x] for x in tb] != [sd[x] for x in ta]:
+                tb = list(ta)
+        else:
+            tb = [rng.choice([x for x in alpha if sd[x] == sd[c]]) for c in ta]
+        present = sorted(set(ta + tb))
+        if rng.random() < 0.5:
+            out = list(present)
+        else:
+            out = [ix for ix in present if rng.random() < 0.55]
+        rng.shuffle(out)
+        shp = tuple(sd[ix] for ix in ta)
+        return "einsum2", (f"{''.join(ta)},{''.join(tb)}->{''.join(out)}", (shp, shp))
+    sa = tuple(rng.choice(few) for _ in range(r))
+    n = rng.choice([0, 0, rng.randint(0, r)])
+    if rng.random() < 0.3 and tuple(sa[r - n :]) == tuple(sa[:n]):
+        return "tensordot", (rng.choice(["int", "npint"]), n, (sa, sa))
+    axa = tuple(rng.sample(range(r), n))
+    axb = axa
+    for _ in range(8):
+        cand = tuple(rng.sample(range(r), n))
+        if all(sa[i] == sa[j] for i, j in zip(axa, cand)):
+            axb = cand
+            break
+    return "tensordot", ("tuple", (axa, axb), (sa, sa))
+
+
+def run_random_square(rep, sink, tier, seed, shard):
+    dl = Deadline(budget(tier, 100, 1200))
+    n = budget(tier, 300, 7500)
+    block = []
+    done = 0
+    for k in range(n):
+        if dl.expired():
+            rep.note(f"random equal-shape workload stopped by its deadline after {k} cases")
+            break
+        cs = f"{seed}/{PID}/RNDSQ/{shard}/{k}"
+        rng = rng_for(cs)
+        space, desc = rand_square_desc(rng)
+        block.append((space, desc, f"RNDSQ-{space}", cs, rng.choice(["float", "complex"])))
+        done += 1
+        if len(block) >= BLOCK:
+            run_block(rep, sink, block)
+            block = []
+    if block:
+        run_block(rep, sink, block)
+    rep.count("space_done", "RNDSQ", done)
 
 
 def run_random(rep, sink, tier, seed, shard):
@@ -723,13 +931,19 @@ def classify(v):
 
 
 def replay(rep, v):
-    case = {k: x for k, x in v["witness"].items() if k != "plan"}
+    # "operands" (same_object / view_* / noncontig) is part of the case and is honoured by execute()
+    case = {k: x for k, x in v["witness"].items() if k not in ("plan", "operand_info")}
     for _ in (0, 1):  # cold, then warm
         res = execute(rep, case)
         if res:
             w = dict(case)
-            w["plan"] = res[2]
-            rep.violation(res[0], w, f"{case['ex']} {case.get('eq', case.get('axes'))} shapes={case['shapes']}: {res[1]}")
+            w.update(res[2])
+            rep.violation(
+                res[0],
+                w,
+                f"{case['ex']} {case.get('eq', case.get('axes'))} shapes={case['shapes']} "
+                f"operands={case.get('operands') or 'independent'}: {res[1]}",
+            )
             return
 
 
